@@ -24,12 +24,12 @@ theorem forwarding_ok :
       ForwardsByName c = true ∧ "V_RF" ∈ c.pairs.map (·.1) ∧ "V0" ∈ c.pairs.map (·.1)) := by
   decide
 
-/-- main() hands the RF parameters to the like-named formals of all four constructions
-    (`V_RF := V_eff` is the effective voltage main computes — see DESIGN.md, observation K) -/
+/-- main() hands the RF parameters — including the RF amplitude `V_RF` of the sinusoidal maps
+    (historic defect K: `V_eff` was passed) — to the like-named formals of all four constructions -/
 theorem main_constructs_rf_maps :
     ∀ c ∈ ctorCalls, c.site ∈ ["main.new.DynamicRFKickMap.lin", "main.new.DynamicRFKickMap.sin",
                                "main.new.RFKickMap.lin", "main.new.RFKickMap.sin"] →
-      ∀ p ∈ c.pairs, p.1 ∈ ["angle", "revolutionpart", "f_RF", "V0", "interpol_clamp", "oclh"] → p.1 = p.2 := by
+      ∀ p ∈ c.pairs, p.1 ∈ ["angle", "revolutionpart", "V_RF", "f_RF", "V0", "interpol_clamp", "oclh"] → p.1 = p.2 := by
   decide
 
 /-- all four constructions are present -/
